@@ -156,6 +156,10 @@ def gen_quic_conn(R, cid, cfg, used, **epkw):
                                  ["nst", A.range(20, 200)])
         script.append(fl)
     q["script"] = script
+    if A.chance(cfg.get("one_way_pct", 8)):
+        # one-way tap / asymmetric routing: after the handshake the capture sees only one direction's datagrams
+        # (the peer still receives and answers everything, key updates included)
+        q["one_way"] = A.choice("cs")
     q["net_seed"] = R.bits(40)
     conn = {"id": cid, "proto": "quic", "sub": R.bits(63), "v6": v6, "c": c, "s": s, "q": q, "pad_eth": R.chance(50),
             "t": G.gen_timing(R.fork("t"), cid, cfg.get("policy", "concurrent")), "unique_ts": True}
@@ -620,7 +624,9 @@ def build_units(conn):
                 plain = not any(m["n"] in ("NewConnectionIdFrame", "CryptoFrame") for p in pks for m in p[2]["frames"])
                 act = dg.get("act")
                 if act and (not plain or (initiated == d) or side[d].gen not in sent_in_gen[d]):
-                    act = None      # only plain data datagrams of one key phase are lost/duplicated/reordered (C02)
+                    act = None
+                if q.get("one_way") and d != q["one_way"]:
+                    act = ["lost"]          # never passes the tap      # only plain data datagrams of one key phase are lost/duplicated/reordered (C02)
                 f[d].append(datagram(d, pks, act=act, plain=plain))
         flights.append(f)
         flight_done()
@@ -699,7 +705,7 @@ def reduction_candidates(conn):
                 c = copy.deepcopy(conn)
                 del c["q"]["script"][i][key]
                 yield "flight %d: no %s" % (i, key), c
-    for key, simple in (("retry", False), ("zero_rtt", None), ("early_s", False), ("hs_dup", None), ("s_coalesce", False),
+    for key, simple in (("retry", False), ("zero_rtt", None), ("early_s", False), ("hs_dup", None), ("one_way", None), ("s_coalesce", False),
                         ("c_coalesce", False), ("ch_cuts", []), ("pad_mode", "frames")):
         if q.get(key) not in (simple, None, False, []):
             c = copy.deepcopy(conn)
